@@ -203,11 +203,12 @@ def decide_path(s, guards, leaf):
         # path conditions in another syntactic form (truthiness of a child list, len(...) == 0, ...): derive the same facts by
         # enumerating which abstract states (number of atom / compound children) can take this path
         try:
-            feas = [(nA, nK) for nA in range(0, 3) for nK in range(0, 3)
-                    if any(all(bool(interp(g, {'v': v, 'nA': nA, 'nK': nK})) == pol for g, pol in guards) for v in range(-3, 5))]
-            vdep = any(len({all(bool(interp(g, {'v': v, 'nA': nA, 'nK': nK})) == pol for g, pol in guards) for v in range(-3, 5)}) > 1
-                       for nA in range(0, 3) for nK in range(0, 3))
-            if feas and not vdep:
+            outcome = {}
+            for st_ in states():
+                outcome.setdefault((st_['nA'], st_['nK']), set()).add(all(bool(interp(g, st_)) == pol for g, pol in guards))
+            feas = sorted(k_ for k_, o in outcome.items() if True in o)
+            vdep = any(len(o) > 1 for o in outcome.values())      # the guards also depend on the value / on the atoms' bounds
+            if feas:
                 facts = set()
                 if all(nK >= 1 for _, nK in feas):
                     facts.add('has_compound')
@@ -220,7 +221,7 @@ def decide_path(s, guards, leaf):
                 want = {(a, k) for a in range(3) for k in range(3)
                         if ('has_compound' not in facts or k >= 1) and ('all_atoms' not in facts or k == 0)
                         and ('has_atom' not in facts or a >= 1) and ('no_atoms' not in facts or a == 0)}
-                if want == set(feas):
+                if want == set(feas) and not vdep:
                     unknown = []          # the facts characterise the path exactly
         except Uninterp:
             pass
@@ -253,9 +254,11 @@ def _bounded_safe(s, guards, leaf):
     """typestate by enumeration: on every feasible abstract state sign' = +1 or there is no compound child"""
     import itertools as it
     try:
-        for nA, nK in it.product(range(0, 3), range(0, 3)):
-            for v in range(-3, 5):
-                st = {'v': v, 'nA': nA, 'nK': nK}
+        for st in states():
+            if True:
+                nA, nK, v = st['nA'], st['nK'], st['v']
+                if any(b != (0, 1) for b in st['ab']):
+                    continue            # the solver-safe clause of the property is stated over boolean leaves
                 if not all(bool(interp(g, st)) == pol for g, pol in guards):
                     continue
                 obj = leaf[1]
@@ -418,6 +421,37 @@ def _G_of(x):
     return None
 
 
+def _len_of(x, st):
+    """number of members of a child-list term (None when not recognised)"""
+    x = _strip_list(x)
+    if x == P_SELF:
+        return st['nA'] + st['nK']
+    if x == COMP:
+        return st['nK']
+    if x == ATOMS:
+        return st['nA']
+    if x[0] == 'list':
+        return len(x[1])
+    if x[0] == 'map':
+        return _len_of(x[2], st)
+    if x[0] == 'concat':
+        parts = [_len_of(p_, st) for p_ in x[1]]
+        return None if any(p_ is None for p_ in parts) else sum(parts)
+    return None
+
+
+ATOM_BOUNDS = ((0, 1), (0, 2), (-1, 2))      # boolean, non-negative integer, general integer
+
+
+def states(max_a=2, max_k=2):
+    """abstract states: value, number of atom / compound children, declared bounds of every atom child"""
+    import itertools as it
+    for nA, nK in it.product(range(0, max_a + 1), range(0, max_k + 1)):
+        for ab in it.product(ATOM_BOUNDS, repeat=nA):
+            for v in range(-3, 5):
+                yield {'v': v, 'nA': nA, 'nK': nK, 'ab': ab}
+
+
 def interp(t, st):
     k = t[0]
     if k == 'const':
@@ -436,6 +470,9 @@ def interp(t, st):
             return st['nA']
         if _G_of(x) is not None:
             return st['nK'] + 1
+        n = _len_of(x, st)
+        if n is not None:
+            return n
         raise Uninterp(T.show(t))
     if k == 'call' and t[1] in (T.G('abs'), T.G('min'), T.G('max'), T.G('int')) and not t[3]:
         args = [interp(a, st) for a in t[2]]
@@ -466,6 +503,16 @@ def interp(t, st):
         return st['nA']
     if x0 == P_SELF:
         return st['nA'] + st['nK']
+    # a predicate over the atom children: all(map(lambda atom: <condition on atom.bounds>, atoms))
+    if k == 'call' and t[1] in (T.G('all'), T.G('any')) and len(t[2]) == 1 and not t[3] and t[2][0][0] == 'map' \
+            and t[2][0][1][0] == 'lam' and t[2][0][1][1] == 1 and _strip_list(t[2][0][2]) == ATOMS:
+        body = t[2][0][1][2]
+        vals = [bool(interp(body, dict(st, bv=b))) for b in st.get('ab', ((0, 1),) * st['nA'])[:st['nA']]]
+        return int(all(vals) if t[1] == T.G('all') else any(vals))
+    if k == 'attr' and t[2] in ('lower', 'upper') and t[1] == ('attr', ('bv', 0, 0), 'bounds') and 'bv' in st:
+        return st['bv'][0 if t[2] == 'lower' else 1]
+    if k == 'tuple':
+        return tuple(interp(x, st) for x in t[1])
     if k == 'and':
         return int(all(interp(x, st) for x in t[1]))
     if k == 'or':
@@ -511,7 +558,10 @@ def _truth_of_result(obj, st, atoms, comps):
         elif src == P_SELF:
             total = sum(1 - a for a in atoms) + sum(1 - c for c in comps)
         else:
-            raise Uninterp('children ' + T.show(src)[:80])
+            mem = _members(src, st, atoms, comps)
+            if src == ATOMS or any(x not in (0, 1) for x in mem):
+                raise Uninterp('negate() applied to a member that is not a 0/1 proposition')
+            total = sum(1 - x for x in mem)
     elif ch == COMP:
         total = sum(comps)
     elif ch == ATOMS:
@@ -519,6 +569,46 @@ def _truth_of_result(obj, st, atoms, comps):
     else:
         raise Uninterp('children ' + T.show(ch)[:80])
     return int(sign2 * total - value2 >= 0), ('own' if True else '')
+
+
+def _ctor_truth(c, total, st):
+    """truth of AtLeast(value=.., sign=.., propositions=<members summing to total>)"""
+    kw = dict(c[3])
+    val = interp(kw.get('value'), st)
+    sg = interp(kw.get('sign'), st) if kw.get('sign', T.NONE) != T.NONE else (1 if val > 0 else -1)
+    return int(sg * total - val >= 0)
+
+
+def _members(src, st, atoms, comps):
+    """values of the members of a child-list term: compound children are 0/1, atom children carry their integer value, a
+    freshly constructed AtLeast(...) over atoms carries its truth value"""
+    src = _strip_list(src)
+    if src == COMP:
+        return list(comps)
+    if src == ATOMS:
+        return list(atoms)
+    if src == P_SELF:
+        return list(atoms) + list(comps)
+    if src[0] == 'concat':
+        out = []
+        for p_ in src[1]:
+            out += _members(p_, st, atoms, comps)
+        return out
+    if src[0] == 'list':
+        out = []
+        for e in src[1]:
+            if e[0] == 'call' and e[1] == T.G(ATLEAST) and not e[2]:
+                out.append(_ctor_truth(e, sum(_members(dict(e[3]).get('propositions'), st, atoms, comps)), st))
+            else:
+                raise Uninterp('member ' + T.show(e)[:80])
+        return out
+    if src[0] == 'map' and src[1][0] == 'lam' and src[1][1] == 1:
+        body = src[1][2]
+        inner = _members(src[2], st, atoms, comps)
+        if body[0] == 'call' and body[1] == T.G(ATLEAST) and not body[2] and _strip_list(dict(body[3]).get('propositions')) == ('list', (('bv', 0, 0),)):
+            return [_ctor_truth(body, x, st) for x in inner]          # one unit node per member
+        raise Uninterp('mapped member ' + T.show(body)[:80])
+    raise Uninterp('children ' + T.show(src)[:80])
 
 
 def _truth_G(g, st, atoms):
@@ -534,13 +624,13 @@ def bounded_check(s, guards, leaf):
         return ('inconclusive', 'path does not return')
     npoints = 0
     try:
-        for nA, nK in it.product(range(0, 3), range(0, 3)):
-            for v in range(-3, 5):
-                st = {'v': v, 'nA': nA, 'nK': nK}
+        for st in states():
+            if True:
+                nA, nK, v = st['nA'], st['nK'], st['v']
                 feasible = all(bool(interp(g, st)) == pol for g, pol in guards)
                 if not feasible:
                     continue
-                for atoms in it.product((0, 1), repeat=nA):
+                for atoms in it.product(*[range(lo, hi + 1) for lo, hi in st['ab']]):
                     for comps in it.product((0, 1), repeat=nK):
                         npoints += 1
                         orig = int(s * (sum(atoms) + sum(comps)) - v >= 0)
@@ -552,7 +642,7 @@ def bounded_check(s, guards, leaf):
         return ('inconclusive', f"not interpretable: {e}")
     if npoints == 0:
         return ('ok', 'path infeasible for every abstract state with <= 2 atom and <= 2 compound children, value in [-3,4]')
-    return ('ok', f"no counterexample over {npoints} abstract states (<= 2 atoms, <= 2 compounds, value in [-3,4], children 0/1); "
+    return ('ok', f"no counterexample over {npoints} abstract states (<= 2 atoms with bounds (0,1) / (0,2) / (-1,2), <= 2 compounds, value in [-3,4]); "
                   f"path condition and value' are piecewise linear in these")
 
 
